@@ -6,12 +6,13 @@ from lockstep import run_impl, run_model, first_diff, shrink
 
 # property -> store/edge families whose correspondence it depends on
 STORE_FAMILIES = {
-    "C01": ["pos", "buf", "bufedge", "fleet", "slot"], "C02": ["pos", "buf", "bufedge", "fleet", "slot"],
+    "C01": ["pos", "buf", "bufedge", "fleet", "slot", "cbelt"], "C02": ["pos", "buf", "bufedge", "fleet", "slot", "cbelt"],
     "C04": ["pos", "buf", "bufedge", "fleet", "slot"],
-    "C05": ["pos", "buf", "prq"], "C06": ["pos", "buf", "bufedge", "fleet", "slot"], "C07": ["pos", "buf", "bufedge", "fleet", "slot"],
-    "C10": ["pos", "buf"], "C11": ["bufedge", "buf"], "C12": ["slot"], "C13": ["slot"], "C14": ["fleet"],
-    "C18": ["pos", "bufedge", "fleet", "slot"], "C19": ["pos", "buf"],
-    "C20": ["prq", "fleet"],
+    "C05": ["pos", "buf", "prq"], "C06": ["pos", "buf", "bufedge", "fleet", "slot", "cbelt"],
+    "C07": ["pos", "buf", "bufedge", "fleet", "slot", "cbelt"],
+    "C10": ["pos", "buf"], "C11": ["bufedge", "buf"], "C12": ["slot", "cbelt"], "C13": ["slot", "cbelt"], "C14": ["fleet"],
+    "C18": ["pos", "bufedge", "fleet", "slot", "cbelt"], "C19": ["pos", "buf"],
+    "C20": ["prq", "fleet", "cbelt"],
 }
 # judge property ids that decide each property at store level
 JUDGE_PROPS = {p: [p] for p in STORE_FAMILIES}
@@ -211,7 +212,13 @@ def check_property(pid, tier, seed):
         if pid not in k["properties"]: continue
         wpath = os.path.join(VERIF, k["witness"])
         try:
-            if wpath.endswith(".factory.json"):
+            if wpath.endswith(".py"):
+                # a stand-alone demonstration on the real code: exit 0 = behaves, 1 = the defect shows
+                q = subprocess.run([sys.executable, wpath], capture_output=True, text=True, timeout=300,
+                                   env=dict(os.environ, PYTHONPATH=SRC))
+                fails = q.returncode != 0
+                h, ops = None, None
+            elif wpath.endswith(".factory.json"):
                 import node_family
                 f = node_family.eval_factory(json.load(open(wpath)))
                 fails = any(v[0] == pid and (k.get("rule") is None or v[1].startswith(k["rule"])) for v in f["viol"])
